@@ -39,6 +39,8 @@ class Ctx:
         self.poison = []  # concrete undefined values that met symbolic data
         self.fresh = 0
         self.divisors = []  # symbolic divisors seen (definedness obligations)
+        self.ack_div = False  # Ackermannise division by symbolic divisors
+        self.quots = []  # (numerator, denominator, result var) when ack_div
 
     def const(self, name, *facts_fn):
         if name not in self.consts:
@@ -341,6 +343,10 @@ def rdiv(a, b, dt=None):
         CTX.divisors.append(b)
         return ZERO
     CTX.divisors.append(zr(b, "div"))
+    if CTX.ack_div:
+        q = CTX.freshvar("quot")
+        CTX.quots.append((zr(a, "div"), zr(b, "div"), q))
+        return q
     return zr(a, "div") / zr(b, "div")
 
 
